@@ -102,14 +102,19 @@ class Pool:
         self.dir = gen.scratch("lspverif-c16-models-")
         base = load_doc(repo_path("generator", "lsp.json"))
         evolved: List[Tuple[dict, List[dict]]] = []
-        mini(evolve.evolved(base, 2, 5, allow={"E1", "E2", "E3", "E4", "E5", "E6", "E7"}), 3, (seed, "C16", "pool"), lambda x: evolved.append(x))
+        mini(evolve.evolved(base, 2, 5, allow={"E1", "E2", "E3", "E4", "E5", "E6", "E7", "E8"}), 3, (seed, "C16", "pool"), lambda x: evolved.append(x))
         small_a = submodel(base, ["textDocument/hover", "textDocument/didOpen", "$/progress", "workspace/symbol"])
         small_b = submodel(base, ["textDocument/completion", "textDocument/didClose", "window/showMessage"])
+        # a reduced model that exercises every type production under every kind of name (literals, tuples, maps,
+        # keyword names...): the places where a plugin invents names or iterates over sets
+        mx: List[Tuple[dict, List[dict]]] = []
+        mini(evolve.evolved(small_b, 0, 2, focus="matrix+literal+message-no-typename"), 2, (seed, "C16", "mx"), lambda x: mx.append(x))
+        small_mx = mx[-1][0]
         ext = {"metaData": {"version": "x"}, "requests": [], "notifications": [
             {"method": "vf/extra", "messageDirection": "both", "typeName": "VfExtraNotification", "params": {"kind": "reference", "name": "VfExtraParams"}}],
             "structures": [{"name": "VfExtraParams", "properties": [{"name": "extraValue", "type": {"kind": "base", "name": "string"}}]}],
             "enumerations": [], "typeAliases": []}
-        docs: Dict[str, dict] = {"small_a": small_a, "small_b": small_b, "ext": ext}
+        docs: Dict[str, dict] = {"small_a": small_a, "small_b": small_b, "ext": ext, "small_mx": small_mx}
         if not (quick and plugin in ("dotnet", "testdata")):
             docs["evo1"] = evolved[-1][0]
             if plugin != "testdata":
@@ -123,6 +128,7 @@ class Pool:
         P = lambda n: os.path.join(self.dir, n + ".json")
         self.lists: Dict[str, List[str]] = {
             "small_a": [P("small_a")], "small_b": [P("small_b")], "small_a+ext": [P("small_a"), P("ext")],
+            "small_mx": [P("small_mx")],
         }
         slow = plugin in ("dotnet", "testdata")
         if not (quick and slow):
@@ -277,6 +283,8 @@ def _work(args) -> dict:
                     mach._plant(kind, tag)
                     mach.do_run(a, 1)
                 mach.do_run(b, 2)
+                for hs in (0, 1, 2, 3, 4, 5):   # hash seeds on the name-inventing model
+                    mach.do_run("small_mx", hs)
                 mach._plant("owned-pattern", 5)
                 mach.do_run("small_a+ext", 3)
                 mach.do_run(a, 987654321)
